@@ -2,7 +2,7 @@
 import solvercheck, framework
 PID = "C01"
 MODULE = "MysticVerif.Props.C01"
-THEOREMS = ["MysticVerif.C01.de_member_inv", "MysticVerif.C01.de_best_inv", "MysticVerif.C01.de_best_le_members", "MysticVerif.C01.de2_step_eq_de1_step", "MysticVerif.C01.de_best_le_initial_guess", "MysticVerif.C01.nm_member_inv", "MysticVerif.C01.nm_inv_reachable", "MysticVerif.C01.nm_best_evaluated_of_fixed", "MysticVerif.C01.nm_best_le_members", "MysticVerif.C01.nm_best_not_evaluated_witness"]
+THEOREMS = ["MysticVerif.C01.de_member_inv", "MysticVerif.C01.de_best_inv", "MysticVerif.C01.de_best_le_members", "MysticVerif.C01.de2_step_eq_de1_step", "MysticVerif.C01.de_best_le_initial_guess", "MysticVerif.C01.nm_member_inv", "MysticVerif.C01.nm_inv_reachable", "MysticVerif.C01.nm_best_evaluated_of_fixed", "MysticVerif.C01.nm_best_le_members", "MysticVerif.C01.nm_best_not_evaluated_witness", "MysticVerif.C01.pw_best_inv", "MysticVerif.C01.pw_best_inv_gen0", "MysticVerif.C01.pw_best_le_initial_guess"]
 
 
 def run_shard(pid, seed, shard, ncases, tier, extra):
@@ -14,7 +14,7 @@ def main(tier, seed):
 
 
 RULE_EXTRA = 'wrapper stream: fmin/fmin_powell/diffev/diffev2 with full_output=1 (returned x evaluated, fval = cost+penalty).'
-TRUSTED_EXTRA = ['Powell: monitor only (line search not modelled)', 'ensembles: C09']
+TRUSTED_EXTRA = ["Powell: the Brent line search is an oracle of the model (which points it evaluates, which one it returns), recorded from the real run; the contract 'never worse than the start' (LsMono) is checked on every recorded search; everything else of PowellDirectionalSolver._Step is computed by the model and replayed bit for bit (histogram model:pw, pw-iterations, pw-extrapolation-searches)", 'ensembles: C09']
 
 
 def replay(path):
